@@ -711,6 +711,12 @@ func origins(v ssa.Value) []ssa.Value {
 					b := freeVarBinding(fv)
 					if al, ok := b.(*ssa.Alloc); ok {
 						sts := storesTo(al)
+						// a variable assigned only by the function that declares it: what the function
+						// literal can find in it is what reaches the point where the literal is made, or
+						// is assigned after that point
+						if rs, ok := cellStoresReaching(al, fv.Parent()); ok {
+							sts = rs
+						}
 						if len(sts) == 0 {
 							out = append(out, v)
 						}
@@ -827,4 +833,114 @@ func typeString(t types.Type) string {
 		parts := strings.Split(p.Path(), "/")
 		return parts[len(parts)-1]
 	})
+}
+
+// cellStoresReaching: the values the captured variable al may hold when the function literal lit
+// (made once, in the function that declares al) runs: the stores that reach the MakeClosure
+// instruction and those that can follow it. ok is false when al is also assigned elsewhere (by a
+// function literal), or through a derived address, or the literal is made at several places.
+func cellStoresReaching(al *ssa.Alloc, lit *ssa.Function) ([]ssa.Value, bool) {
+	parent := al.Parent()
+	if parent == nil || lit.Parent() != parent || al.Referrers() == nil {
+		return nil, false
+	}
+	var mc *ssa.MakeClosure
+	for _, b := range parent.Blocks {
+		for _, in := range b.Instrs {
+			if m, ok := in.(*ssa.MakeClosure); ok && m.Fn == ssa.Value(lit) {
+				if mc != nil {
+					return nil, false
+				}
+				mc = m
+			}
+		}
+	}
+	if mc == nil {
+		return nil, false
+	}
+	stores := map[ssa.Instruction]*ssa.Store{}
+	for _, r := range *al.Referrers() {
+		switch x := r.(type) {
+		case *ssa.Store:
+			if x.Addr != ssa.Value(al) {
+				return nil, false // the address itself is stored somewhere
+			}
+			stores[x] = x
+		case *ssa.UnOp, *ssa.DebugRef:
+		case *ssa.MakeClosure:
+			// captured: a literal that assigns it makes the order of assignments unknown
+			if f, ok := x.Fn.(*ssa.Function); ok {
+				for i, bnd := range x.Bindings {
+					if bnd != ssa.Value(al) || i >= len(f.FreeVars) || f.FreeVars[i].Referrers() == nil {
+						continue
+					}
+					for _, fr := range *f.FreeVars[i].Referrers() {
+						if st, ok := fr.(*ssa.Store); ok && st.Addr == ssa.Value(f.FreeVars[i]) {
+							return nil, false
+						}
+						if _, isLoad := fr.(*ssa.UnOp); !isLoad {
+							if _, isDbg := fr.(*ssa.DebugRef); !isDbg {
+								return nil, false
+							}
+						}
+					}
+				}
+			}
+		default:
+			return nil, false
+		}
+	}
+	var out []ssa.Value
+	seenV := map[ssa.Value]bool{}
+	add := func(v ssa.Value) {
+		if !seenV[v] {
+			seenV[v] = true
+			out = append(out, v)
+		}
+	}
+	// backwards from the literal: the nearest store on each path
+	seenB := map[*ssa.BasicBlock]bool{}
+	var back func(b *ssa.BasicBlock, from int)
+	back = func(b *ssa.BasicBlock, from int) {
+		for i := from; i >= 0; i-- {
+			if st, ok := stores[b.Instrs[i]]; ok {
+				add(st.Val)
+				return
+			}
+		}
+		for _, p := range b.Preds {
+			if !seenB[p] {
+				seenB[p] = true
+				back(p, len(p.Instrs)-1)
+			}
+		}
+	}
+	idx := 0
+	for i, in := range mc.Block().Instrs {
+		if in == ssa.Instruction(mc) {
+			idx = i
+		}
+	}
+	back(mc.Block(), idx-1)
+	// forwards: every store that can come after the literal was made
+	seenF := map[*ssa.BasicBlock]bool{}
+	var fwd func(b *ssa.BasicBlock, from int)
+	fwd = func(b *ssa.BasicBlock, from int) {
+		for i := from; i < len(b.Instrs); i++ {
+			if st, ok := stores[b.Instrs[i]]; ok {
+				add(st.Val)
+			}
+		}
+		for _, s := range b.Succs {
+			if !seenF[s] {
+				seenF[s] = true
+				fwd(s, 0)
+			}
+		}
+	}
+	fwd(mc.Block(), idx+1)
+	if len(out) == 0 {
+		return nil, false
+	}
+	return out, true
 }
